@@ -14,10 +14,12 @@ EXTENDS Integers, Sequences, TLC, Json, IOUtils
 
 Obs == ndJsonDeserialize(IOEnv.TRACE_FILE)
 
-Exponent == [rate |-> -1, increment |-> 1, walk |-> 1]
+\* *_irregular: the same law must hold sample by sample on irregular stamps (each sample scales with ITS OWN interval):
+\* measured between the two interval classes of an alternating 0.5 s / 1.5 s sampling
+Exponent == [rate |-> -1, increment |-> 1, walk |-> 1, rate_irregular |-> -1, increment_irregular |-> 1]
 \* percent of the assumed variance; margins are >= 5 sigma of the estimators used (DESIGN.md s6 C14)
-Lo == [rate |-> 90, increment |-> 90, walk |-> 75, walk_growth |-> 70]
-Hi == [rate |-> 110, increment |-> 110, walk |-> 125, walk_growth |-> 130]
+Lo == [rate |-> 90, increment |-> 90, walk |-> 75, walk_growth |-> 70, rate_irregular |-> 90, increment_irregular |-> 90]
+Hi == [rate |-> 110, increment |-> 110, walk |-> 125, walk_growth |-> 130, rate_irregular |-> 110, increment_irregular |-> 110]
 
 VARIABLE k
 Init == k = 1
